@@ -505,9 +505,21 @@ impl Wal {
 
         let offset = file.metadata()?.len();
         file.seek(SeekFrom::End(0))?;
+        #[cfg(nervusdb_verif)]
+        crate::verif_hooks::io_before("write", "wal.append.len", Some(&*file), None)?;
         file.write_all(&len.to_le_bytes())?;
+        #[cfg(nervusdb_verif)]
+        crate::verif_hooks::io_after("write", "wal.append.len", Some(&*file), None);
+        #[cfg(nervusdb_verif)]
+        crate::verif_hooks::io_before("write", "wal.append.crc", Some(&*file), None)?;
         file.write_all(&crc.to_le_bytes())?;
+        #[cfg(nervusdb_verif)]
+        crate::verif_hooks::io_after("write", "wal.append.crc", Some(&*file), None);
+        #[cfg(nervusdb_verif)]
+        crate::verif_hooks::io_before("write", "wal.append.body", Some(&*file), None)?;
         file.write_all(&body)?;
+        #[cfg(nervusdb_verif)]
+        crate::verif_hooks::io_after("write", "wal.append.body", Some(&*file), None);
         file.flush()?;
         Ok(offset)
     }
@@ -516,7 +528,11 @@ impl Wal {
         let Some(file) = self.file.as_mut() else {
             return Err(Error::WalProtocol("wal file is closed"));
         };
+        #[cfg(nervusdb_verif)]
+        crate::verif_hooks::io_before("sync", "wal.fsync", Some(&*file), None)?;
         file.sync_data()?;
+        #[cfg(nervusdb_verif)]
+        crate::verif_hooks::io_after("sync", "wal.fsync", Some(&*file), None);
         Ok(())
     }
 
@@ -530,20 +546,28 @@ impl Wal {
         };
 
         {
+            #[cfg(nervusdb_verif)]
+            crate::verif_hooks::io_before("create", "wal.rewrite.create", None, Some(&tmp))?;
             let mut tmp_file = OpenOptions::new()
                 .write(true)
                 .create_new(true)
                 .truncate(false)
                 .open(&tmp)?;
+            #[cfg(nervusdb_verif)]
+            crate::verif_hooks::io_after("create", "wal.rewrite.create", Some(&tmp_file), None);
 
             fn append_to(file: &mut File, record: &WalRecord) -> Result<()> {
                 let body = record.encode_body()?;
                 let len =
                     u32::try_from(body.len()).map_err(|_| Error::WalRecordTooLarge(u32::MAX))?;
                 let crc = crc32(&body);
+                #[cfg(nervusdb_verif)]
+                crate::verif_hooks::io_before("write", "wal.rewrite.record", Some(&*file), None)?;
                 file.write_all(&len.to_le_bytes())?;
                 file.write_all(&crc.to_le_bytes())?;
                 file.write_all(&body)?;
+                #[cfg(nervusdb_verif)]
+                crate::verif_hooks::io_after("write", "wal.rewrite.record", Some(&*file), None);
                 Ok(())
             }
 
@@ -553,9 +577,15 @@ impl Wal {
             }
             append_to(&mut tmp_file, &WalRecord::CommitTx { txid })?;
             tmp_file.flush()?;
+            #[cfg(nervusdb_verif)]
+            crate::verif_hooks::io_before("sync", "wal.rewrite.sync", Some(&tmp_file), None)?;
             tmp_file.sync_data()?;
+            #[cfg(nervusdb_verif)]
+            crate::verif_hooks::io_after("sync", "wal.rewrite.sync", Some(&tmp_file), None);
         }
 
+        #[cfg(nervusdb_verif)]
+        crate::verif_hooks::io_before("rename", "wal.rewrite.rename", None, Some(&tmp))?;
         // Best-effort replace (POSIX: rename overwrites; Windows: needs remove first).
         if std::fs::rename(&tmp, &self.path).is_err() {
             if self.path.exists() {
@@ -563,6 +593,8 @@ impl Wal {
             }
             std::fs::rename(&tmp, &self.path)?;
         }
+        #[cfg(nervusdb_verif)]
+        crate::verif_hooks::io_after("rename", "wal.rewrite.rename", None, Some(&self.path));
 
         let file = OpenOptions::new()
             .read(true)
